@@ -46,7 +46,7 @@ SIG = {
     'pad16': 'bytes', 'zeros': 'bytes', 'gcm_h': 'bytes', 'gcm_j0': 'bytes', 'inc32': 'bytes', 'gcm_s_input': 'bytes',
     'gcm_tag': 'bytes', 'ctr_limit': 'int', 'be4': 'int[nat]',
     'cp_mac_input': 'bytes', 'cp_s_input': 'bytes', 'cp_otk': 'bytes', 'nonce12': 'bytes',
-    'dbl': 'bytes', 'omac_k1': 'bytes', 'omac_k2': 'bytes', 'omac': 'bytes', 'omac_parts': 'bytes', 'omac_max': 'int', 'eax_omac': 'bytes', 'rb': 'int', 'bx': 'bytes',
+    'dbl': 'bytes', 'omac_k1': 'bytes', 'omac_k2': 'bytes', 'omac': 'bytes', 'omac_parts': 'bytes', 'omac_max': 'int', 'eax_omac': 'bytes', 'eax_tag': 'bytes', 'eax_tag_streams': 'bytes', 'rb': 'int', 'bx': 'bytes',
 }
 
 
@@ -284,7 +284,28 @@ def omac_max(bs):
     return 8 * 2 ** 21
 
 
-# ================================================================== EAX (Bellare, Rogaway, Wagner), Figure 3
+# ================================================================== EAX (Bellare, Rogaway, Wagner, "The EAX mode of operation"), Figure 3
+def eax_tag(fid, key, n, h, c, bs, tau):
+    """N' = OMAC^0_K(N); H' = OMAC^1_K(H); C' = OMAC^2_K(C); Tag = N' xor H' xor C'; T = first tau bytes"""
+    return bx(bx(eax_omac(fid, key, 0, n, bs), eax_omac(fid, key, 1, h, bs), bs), eax_omac(fid, key, 2, c, bs), bs)[:tau]
+
+
+def lemma_eax_streams16(fid, key, n, h, c, tau):
+    """the tag over the three OMAC inputs [t]_n || data_t is the EAX tag of (N, H, C)"""
+    return eax_tag_streams(fid, key, rep(b'\x00', 15) + bytes([0]) + n, rep(b'\x00', 15) + bytes([1]) + h,
+                           rep(b'\x00', 15) + bytes([2]) + c, 16, tau) == eax_tag(fid, key, n, h, c, 16, tau)
+
+
+def lemma_eax_streams8(fid, key, n, h, c, tau):
+    return eax_tag_streams(fid, key, rep(b'\x00', 7) + bytes([0]) + n, rep(b'\x00', 7) + bytes([1]) + h,
+                           rep(b'\x00', 7) + bytes([2]) + c, 8, tau) == eax_tag(fid, key, n, h, c, 8, tau)
+
+
+def eax_tag_streams(fid, key, m0, m1, m2, bs, tau):
+    """the same over the three complete OMAC inputs m_t = [t]_n || data_t"""
+    return bx(bx(omac(fid, key, m0, bs, bs), omac(fid, key, m1, bs, bs), bs), omac(fid, key, m2, bs, bs), bs)[:tau]
+
+
 def eax_omac(fid, key, t, m, bs):
     """OMAC^t_K(M) = OMAC_K([t]_n || M), full block"""
     return omac(fid, key, rep(b'\x00', bs - 1) + bytes([t]) + m, bs, bs)
